@@ -1,0 +1,18 @@
+//go:build verif
+
+package http
+
+import "net"
+
+// VerifListen, when set, replaces net.Listen for the plain HTTP listener
+// (verification builds only, see build tag): the simulator hands out a listener
+// of its in-memory network so that the real http.Server runs inside it.
+var VerifListen func(network, address string) (net.Listener, error)
+
+func verifListen(network, address string) (net.Listener, bool, error) {
+	if VerifListen == nil {
+		return nil, false, nil
+	}
+	l, err := VerifListen(network, address)
+	return l, true, err
+}
